@@ -37,13 +37,16 @@ structure Cfg where
 structure Table (τ : Type) where
   entries : List (Name × List τ) := []
   generated : List Name := []
+  /-- `autonamed` (78f76aa): the name a call was renamed TO by -autoname ↦ the name it was written with;
+  most recent binding first -/
+  autonamed : List (Name × Name) := []
   deriving Repr
 
 instance {τ} [DecidableEq τ] : DecidableEq (Table τ) := fun a b =>
   match a, b with
-  | ⟨e1, g1⟩, ⟨e2, g2⟩ =>
-    if h : e1 = e2 ∧ g1 = g2 then isTrue (by cases h; subst_vars; rfl)
-    else isFalse (by intro h'; cases h'; exact h ⟨rfl, rfl⟩)
+  | ⟨e1, g1, a1⟩, ⟨e2, g2, a2⟩ =>
+    if h : e1 = e2 ∧ g1 = g2 ∧ a1 = a2 then isTrue (by obtain ⟨h1, h2, h3⟩ := h; subst_vars; rfl)
+    else isFalse (by intro h'; cases h'; exact h ⟨rfl, rfl, rfl⟩)
 
 /-- message class of a `SetFuncName` error -/
 inductive Err where
@@ -113,17 +116,26 @@ def getFuncName (c : Cfg) (t : Table τ) (typs : List τ) : Name × Table τ :=
   | some n => (n, t)
   | none => let n := newName R c t typs; (n, t.insert n typs)
 
+/-- `tm.autonamed[f]` (the zero value "" when `f` is not a key) -/
+def Table.autonamedFrom (t : Table τ) (f : Name) : Name := (t.autonamed.lookup f).getD []
+
+/-- `tm.autonamed[name] = funcName` on the result of `GetFuncName` -/
+def recordAutoname (r : Name × Table τ) (fn : Name) : Name × Table τ :=
+  (r.1, { r.2 with autonamed := (r.1, fn) :: r.2.autonamed })
+
 def setFuncName (c : Cfg) (t : Table τ) (fn : Name) (typs : List τ) : Except Err (Name × Table τ) :=
   match nameOf R t typs with
   | some f =>
     if f = fn then .ok (fn, t)
     else if c.dedup then .ok (f, t)
+    -- an earlier call of `fn` with these types was renamed to `f` by -autoname: this is that call again
+    else if c.autoname = true ∧ t.autonamedFrom f = fn then .ok (f, t)
     else .error (.duplicate f fn)
   | none =>
     match t.lookup fn with
     | some ts =>
       if eqL R ts typs then .ok (fn, t)
-      else if c.autoname then .ok (getFuncName R c t typs)
+      else if c.autoname then .ok (recordAutoname (getFuncName R c t typs) fn)
       else .error (.conflict fn)
     | none => .ok (fn, t.insert fn typs)
 
